@@ -33,6 +33,8 @@ class FakeWriter:
         self.data = bytearray()
         self.fault = "none"  # none | write | drain | close | wait
         self.closed = False
+        self.paused = False          # back pressure: drain() waits until resume()
+        self.waiters: list = []
 
     def write(self, data: bytes) -> None:
         if self.fault == "write":
@@ -42,6 +44,18 @@ class FakeWriter:
     async def drain(self) -> None:
         if self.fault == "drain":
             raise ConnectionResetError("injected")
+        if self.paused:
+            fut = asyncio.get_running_loop().create_future()
+            self.waiters.append(fut)
+            await fut
+
+    def resume(self) -> None:
+        """Like the transport calling resume_writing: waiters are woken through the loop, not run here."""
+        self.paused = False
+        waiters, self.waiters = self.waiters, []
+        for fut in waiters:
+            if not fut.done():
+                fut.set_result(None)
 
     def close(self) -> None:
         self.closed = True
@@ -132,7 +146,7 @@ class StreamRun:
     def do(self, cmd: list) -> None:
         op = cmd[0]
         unconnected_probe = op in ("read", "write") and len(cmd) > 1 and cmd[1] == "unconnected"
-        if op in ("read", "write", "feed", "eof", "ioerror", "disconnect") and not unconnected_probe and not self.is_connected:
+        if op in ("read", "write", "cwrite", "feed", "eof", "ioerror", "disconnect") and not unconnected_probe and not self.is_connected:
             return  # the model only uses a connected transport (use before the first connect is probed explicitly)
         if op == "connect":
             if self.is_connected:
@@ -173,6 +187,43 @@ class StreamRun:
             if self.writer is not None:
                 self.writer.fault = "none"
             self.events.append({"op": "write", "s": [ord(c) for c in text], "fault": fault, "res": res, "peer": peer})
+        elif op == "cwrite":
+            # several tasks write concurrently while the peer applies back pressure; call order = creation order
+            # (the loop starts tasks first-in first-out).  plan: ["pause"] | ["resume"] | ["start", i, settle?]
+            texts, plan = cmd[1], cmd[2]
+            if self.writer is None:
+                return
+            before = len(self.writer.data)
+            tasks, order = {}, []
+            for step in plan:
+                if step[0] == "pause":
+                    self.writer.paused = True
+                elif step[0] == "resume":
+                    self.writer.resume()
+                elif step[0] == "start":
+                    i = step[1]
+                    tasks[i] = self.loop.create_task(self.tr.write(texts[i]))
+                    order.append(i + 1)
+                    if step[2]:
+                        for _ in range(5):
+                            self.loop.run_until_complete(asyncio.sleep(0))
+            self.writer.resume()
+            for _ in range(8):
+                self.loop.run_until_complete(asyncio.sleep(0))
+            results = []
+            for i in sorted(tasks):
+                t = tasks[i]
+                if not t.done():
+                    t.cancel()
+                    results.append("other:not finished")
+                elif t.cancelled():
+                    results.append("other:CancelledError")
+                elif t.exception() is not None:
+                    results.append(res_of(t.exception()))
+                else:
+                    results.append("ok")
+            self.events.append({"op": "cwrite", "texts": [[ord(c) for c in t] for t in texts], "order": order,
+                                "results": results, "peer": list(self.writer.data[before:])})
         elif op == "disconnect":
             if self.reads:
                 return  # the model disconnects only when no read is outstanding
@@ -287,6 +338,26 @@ def random_jobs(rnd: random.Random, n: int) -> list:
     return jobs
 
 
+def concurrent_write_jobs(tier: str) -> list:
+    """Every plan of three concurrent writers: before each start the peer may pause / resume, and each start
+    may or may not be followed by a run of the loop (a task created but not yet run is overtaken by nothing)."""
+    import itertools
+    jobs = []
+    text_sets = [["1;0;1;0;0;" + "x" * 40 + "\n", "2;0;1;0;0;a\n", "3;0;1;0;0;c\n"], ["é;\n", "\U0001f600\n", "z\n"]]
+    k = 0
+    for toggles in itertools.product(("none", "pause", "resume"), repeat=3):
+        for settles in itertools.product((True, False), repeat=3):
+            plan = []
+            for i in range(3):
+                if toggles[i] != "none":
+                    plan.append([toggles[i]])
+                plan.append(["start", i, settles[i]])
+            for texts in (text_sets if tier == "thorough" else text_sets[:1] if k % 2 else text_sets[1:]):
+                jobs.append(("tcp" if k % 2 else "serial", 2 ** 16, [["connect", True], ["cwrite", texts, plan], ["write", "9;9;9;0;0;after\n", "none"]]))
+            k += 1
+    return jobs
+
+
 def judge(runs: list, workdir: str, shards: int):
     import concurrent.futures
 
@@ -321,7 +392,7 @@ def judge(runs: list, workdir: str, shards: int):
 
 
 def _norm(e: dict) -> dict:
-    base = {"op": "", "fault": "none", "res": "", "bytes": [], "id": 0, "s": [], "peer": []}
+    base = {"op": "", "fault": "none", "res": "", "bytes": [], "id": 0, "s": [], "peer": [], "texts": [], "order": [], "results": []}
     base.update(e)
     if isinstance(base["fault"], bool) and base["op"] != "connect":
         base["fault"] = "none"
@@ -337,6 +408,7 @@ def collect(tier: str, rnd: random.Random, workdir: str, rep) -> list:
     for k, c in enumerate(covers + covers2):
         jobs.append(("tcp" if k % 2 else "serial", 2 ** 16, concretise(c, k)))
     jobs += random_jobs(rnd, 1500 if tier == "quick" else 15000)
+    jobs += concurrent_write_jobs(tier)
     ctx = multiprocessing.get_context("fork")
     with ctx.Pool(16) as pool:
         return pool.map(run_commands, jobs, chunksize=64)
